@@ -35,7 +35,9 @@ class LayerWorld(World):
         kind = rc.choice(["serial", "biclique", "biclique", "recurrent"])
         dt = rc.choice(DTS)
         B = rc.choice([1, 1, 2, 3])
-        cfg = {"kind": kind, "dt": dt, "B": B, "wseed": rc.randrange(1 << 30), "adaptive": rc.random() < 0.3}
+        cfg = {"kind": kind, "dt": dt, "B": B, "wseed": rc.randrange(1 << 30), "adaptive": rc.random() < 0.4}
+        # adaptation is frozen either by eval mode or, in training mode, by adapt=False handed through the layer's neuron kwargs
+        cfg["freeze"] = "kwargs" if (cfg["adaptive"] and rc.random() < 0.6) else "eval"
 
         def conn(nin, nout, direct=False):
             dk = rc.choice([None, None, 1, 2])
@@ -126,9 +128,10 @@ class LayerWorld(World):
     # hand-wired reference: the documented order, components called directly
     def _manual_step(self, cfg, conns, neurons, xs, state):
         kind = cfg["kind"]
+        nk = {"adapt": False} if cfg.get("freeze") == "kwargs" else {}
         if kind == "serial":
             cur = conns[0](xs[0])
-            out = neurons[0](TRANSFORMS[cfg["transform"]](cur))
+            out = neurons[0](TRANSFORMS[cfg["transform"]](cur), **nk)
             return [out], [cur]
         if kind == "biclique":
             curs = [c(x) for c, x in zip(conns, xs)]
@@ -147,7 +150,7 @@ class LayerWorld(World):
                 comb = stack.amax(0)
             else:
                 comb = sum(tr) - tr[0] * 0.25
-            outs = [n(TRANSFORMS[t or "id"](comb)) for n, t in zip(neurons, cfg["pre_output"])]
+            outs = [n(TRANSFORMS[t or "id"](comb), **nk) for n, t in zip(neurons, cfg["pre_output"])]
             return outs, curs
         # recurrent-serial: feedback spikes of the previous step, none on the first
         fb_prev = state.get("fb")
@@ -155,9 +158,9 @@ class LayerWorld(World):
             fb_prev = torch.zeros(cfg["B"], cfg["neurons"][1], dtype=torch.bool)
         ff_cur = conns[0](xs[0])
         fb_cur = conns[2](fb_prev)
-        ff_sp = neurons[0](TRANSFORMS[cfg["ff_t"]](ff_cur) + TRANSFORMS[cfg["fb_t"]](fb_cur))
+        ff_sp = neurons[0](TRANSFORMS[cfg["ff_t"]](ff_cur) + TRANSFORMS[cfg["fb_t"]](fb_cur), **nk)
         lat_cur = conns[1](ff_sp)
-        fb_sp = neurons[1](TRANSFORMS[cfg["lat_t"]](lat_cur))
+        fb_sp = neurons[1](TRANSFORMS[cfg["lat_t"]](lat_cur), **nk)
         state["fb"] = fb_sp
         return [ff_sp, fb_sp], [ff_cur, lat_cur, fb_cur]
 
@@ -180,10 +183,12 @@ class LayerWorld(World):
             conns, neurons = self._components(cfg)
             layer = self._layer(cfg, conns, neurons)
             tconns, tneurons = self._components(cfg)
-        layer.eval()
+        kwmode = cfg.get("freeze") == "kwargs"
+        layer.train(kwmode)
         for m in tconns + tneurons:
-            m.eval()
-        ctx.log("config", kind, cfg.get("combine"), B, cfg["dt"], [c["in"] for c in cfg["conns"]], cfg["neurons"])
+            m.train(kwmode)
+        nkw = {"adapt": False} if kwmode else None
+        ctx.log("config", kind, cfg.get("combine"), B, cfg["dt"], [c["in"] for c in cfg["conns"]], cfg["neurons"], cfg.get("freeze"))
         tstate = {}
         recorded = []     # (xs, outputs) since the last clear
         nspk = 0
@@ -191,16 +196,17 @@ class LayerWorld(World):
 
         def run_layer(xs, capture):
             if kind == "serial":
-                r = layer(xs[0], capture_intermediate=capture)
+                r = layer(xs[0], capture_intermediate=capture, neuron_kwargs=nkw)
                 if capture:
                     return [r[0]], [r[1]]
                 return [r], None
             if kind == "biclique":
-                r = layer({f"c{i}": (x,) for i, x in enumerate(xs)}, capture_intermediate=capture)
+                r = layer({f"c{i}": (x,) for i, x in enumerate(xs)}, capture_intermediate=capture,
+                          neuron_kwargs=(None if nkw is None else {f"n{j}": nkw for j in range(len(neurons))}))
                 if capture:
                     return [r[0][f"n{j}"] for j in range(len(neurons))], [r[1][f"c{i}"] for i in range(len(conns))]
                 return [r[f"n{j}"] for j in range(len(neurons))], None
-            r = layer(xs[0], capture_intermediate=capture)
+            r = layer(xs[0], capture_intermediate=capture, feedfwd_neuron_kwargs=nkw, feedback_neuron_kwargs=nkw)
             if capture:
                 return list(r[0]), [r[1]["feedfwd"], r[1]["lateral"], r[1]["feedback"]]
             return list(r), None
@@ -217,7 +223,7 @@ class LayerWorld(World):
                 with ctx.impl("build", facts):
                     fconns, fneurons = self._components(cfg)
                     flayer = self._layer(cfg, fconns, fneurons)
-                flayer.eval()
+                flayer.train(kwmode)
                 for a, b in zip(neurons, fneurons):
                     if cfg["adaptive"]:
                         b.threshold_adaptation = a.threshold_adaptation.detach().clone()
@@ -246,7 +252,7 @@ class LayerWorld(World):
                 # the hand-wired twin restarts as well
                 tconns, tneurons = self._components(cfg)
                 for m in tconns + tneurons:
-                    m.eval()
+                    m.train(kwmode)
                 for a, b in zip(neurons, tneurons):
                     if cfg["adaptive"]:
                         b.threshold_adaptation = a.threshold_adaptation.detach().clone()
@@ -278,6 +284,10 @@ class LayerWorld(World):
                     if a.shape != b.shape or not torch.equal(a, b):
                         ctx.fail("intermediate", dict(facts, conn=i), f"captured connection output {i} differs from the hand-wired connection output")
             nspk += sum(int(o.any()) for o in outs)
+            if cfg["adaptive"]:
+                for j, (a, b) in enumerate(zip(neurons, tneurons)):
+                    if not torch.equal(a.threshold_adaptation, b.threshold_adaptation):
+                        ctx.fail("wiring", dict(facts, group=j, what="adaptation"), f"neuron group {j}: adaptation state differs from the hand-wired twin although both were told not to adapt")
             recorded.append((xs, [o.clone() for o in outs]))
             if kind == "recurrent" and len(recorded) == 1:
                 ctx.probe("recurrent_first_step_no_feedback")
